@@ -176,6 +176,11 @@ def _run_sweep(case, ctx):
                     detail = repr(e)
                 if not ok:
                     cls = "nonident_wordchar" if names.is_nonident_wordchar(c) else "other"
+                    if cls == "other" and fn_name == "class" and pos == "lead" and not any(ch.isalnum() for ch in pfx) \
+                            and ("a" + c).isidentifier() and not c.isidentifier():
+                        # a character that may continue but not start an identifier (digits, combining marks) relies on the
+                        # prefix; a prefix made of delimiters only is stripped again by Pascal-casing (KF-C09-11)
+                        cls = "needs_prefix_but_prefix_is_delimiters_only"
                     if cls == "nonident_wordchar":
                         bad_known += 1
                     ctx.violation("sweep.valid_identifier", {"class": cls, **({"cp": f"U+{cp:04X}", "pos": pos, "fn": fn_name} if cls == "other" else {})},
